@@ -135,6 +135,14 @@ pub fn initial_states_d(t: Tier, with_big: bool) -> Vec<(Init, usize)> {
     msgs.push(r(vec![], vec![name_rec(&a, T_NS, 7, &ba)], vec![a_rec(&ba, 1, [1, 1, 1, 1]), opt[2].clone(), aaaa_rec(&cba, 2, ip6)]));
     msgs.push(r(vec![], vec![], vec![opt[0].clone()]));
     msgs.push(r(vec![mx_rec(&ba, 9, 10, &cba)], vec![soa_rec(&a, 3, &ba, &cba)], vec![opt[1].clone()]));
+    // no authority, two additional records of which the second is compressed against the first
+    msgs.push(r(vec![a_rec(&ba, 60, [1, 2, 3, 4])], vec![], vec![a_rec(&nm("x.y"), 1, [1, 1, 1, 1]), name_rec(&nm("z.x.y"), T_CNAME, 2, &nm("x.y"))]));
+    // a question of type OPT (41) next to a real OPT record
+    {
+        let mut m = r(vec![a_rec(&ba, 60, [1, 2, 3, 4])], vec![], vec![opt[1].clone()]);
+        m.q[0].qtype = T_OPT;
+        msgs.push(m);
+    }
     let mut q = base_msg(&ba, T_A, false);
     q.ar.push(opt[0].clone());
     msgs.push(q);
